@@ -51,14 +51,16 @@ impl World {
         let got = self.exec_count();
         let want = self.m.borrow().exec_expected;
         if got != want {
-            self.fail(oracle, format!("executions_count() is {} after {}, expected {} (one per collection actually started)", got, what, want));
+            let ctx = if oracle.starts_with("O-TRIGGER") { format!("; before the creation: {}", self.last_pred.borrow()) } else { String::new() };
+            self.fail(oracle, format!("executions_count() is {} after {}, expected {} (one per collection actually started){}", got, what, want, ctx));
         }
     }
 
     // ------------------------------------------------------------------ collection
 
     pub fn collect(&self) {
-        let starts = !self.in_collection();
+        // (during thread teardown the collector's buffer may already be gone: then nothing can be collected)
+        let starts = !self.in_collection() && rust_cc::state::buffered_objects_count().is_ok();
         if starts {
             self.m.borrow_mut().exec_expected += 1;
             self.stats.borrow_mut().collections += 1;
@@ -145,7 +147,8 @@ impl World {
             }
         }
         let bytes = rust_cc::state::allocated_bytes().unwrap_or(0);
-        let buf = rust_cc::state::buffered_objects_count().unwrap_or(0);
+        let Ok(buf) = rust_cc::state::buffered_objects_count() else { return false };
+        *self.last_pred.borrow_mut() = format!("auto_collect={} allocated_bytes={} byte_threshold={} buffered={} buffered_threshold={}", auto, bytes, thr, buf, bthr);
         auto && (bytes > thr || (bthr > 0 && buf > bthr as usize))
     }
 
@@ -505,6 +508,13 @@ impl World {
         self.sync();
         if !self.in_collection() {
             self.check_rc_after_drop(o, what);
+        }
+    }
+
+    pub fn drop_root_checked(&self, i: usize) {
+        let r = catch_unwind(AssertUnwindSafe(|| self.drop_root(i)));
+        if let Err(p) = r {
+            self.fail("O-CONTAIN.panic", format!("dropping a handle panicked: {}", panic_message(&p)));
         }
     }
 
